@@ -26,10 +26,52 @@ PROP = "C19"
 THEOREMS = [
     "Verif.C19.cache_inv",
     "Verif.C19.purity_untruncated",
-    "Verif.C19.derive_preserves_source",
+    "Verif.C19.derive_preserves_source_partial",
     "Verif.C19.num_frames_idempotent",
     "Verif.C19.F5_witness",
     "Verif.C19.purity_after_repair_partial",
+]
+
+RULE = (
+    "a case = object + history (<= 8 steps; addressed object = source, newest or any) of read-only queries and derivations. "
+    "Kymographs/scans are built with the public constructors Kymo/Scan(name, ConfocalFileProxy, start, stop, metadata) from "
+    "generated info waves (P<=4 pixels, <=5 lines / <=3 frames, 1-3 samples per pixel, lead-in, dead time): normal, photon "
+    "streams that start before the scan, end early (shorter than the info wave), absent colours, nominal start inside the "
+    "preceding sample, unfinished last frame, and TRUNCATED FIRST LINE (every photon stream starts 1..k samples after the "
+    "nominal start, k up to the start of the second line; nominal start in the lead-in or in the middle of the first line). "
+    "Queries: start, stop, infowave, pixel_time_seconds, line_time_seconds, get_image(red/green), timestamps, "
+    "line/frame_timestamp_ranges, shape, duration, num_frames, calibration/pixel-size/pixel-count block. Derivations: copy, "
+    "calibrate_to_kbp, time slices, crop_by_distance, downsampled_by (time and position), flip, Scan[frame], Scan[a:b], "
+    "Scan[a:b, y, x], crop_by_pixels, and derivations of derived objects. Exhaustive: every history of length <=2 (quick: "
+    "plus a 12 % sample of length 3; thorough: all of length 3) over a reduced alphabet on fixed objects (normal, truncated, "
+    "short stream, scan; thorough adds late-in-lead-in, sub-sample start, absent colour, truncated scan). Random: 350/7000 "
+    "confocal histories, 120/1500 histories on channels (numpy- and h5py-backed Continuous, TimeSeries), F,d curves, TIFF "
+    "image stacks and track groups, and a malformed stream (out-of-range frame, empty slice, empty crop, slicing a processed "
+    "kymograph) whose errors must repeat identically. Every step is compared with a freshly built twin (only the ancestor "
+    "derivations replayed) and with the Lean state machine; after the history every image/timestamp array handed out by a "
+    "confocal object is attacked with five in-place writes. Non-trivial: >=2 steps with a query after the first step."
+)
+TRUSTED = [
+    "the model answers with provenance terms (which [start, stop) window a value was computed from, through which closures); "
+    "their numeric meaning for images/timestamps is taken from a CLEAN pylake object constructed at that window (value "
+    "semantics are C02/C03/C06's subject), for line/pixel time from the model's own arithmetic, for info-wave slices and "
+    "frame counts from plain Python",
+    "queries of object kinds without start-dependent state (channels, F,d curves, image stacks, track groups) are modelled as "
+    "functions of the derivation path: for them the model tie coincides with the twin oracle",
+    "cachetools.cachedmethod fetches the cache dict before calling the method (cachetools 5-7 behaviour)",
+]
+ASSUMPTIONS = [
+    "info wave and photon counts share one sampling grid; constant samples per pixel",
+    "a truncated photon stream starts no later than the second scan line (one repair reaches it); later starts make "
+    "seek_timestamp_next_line drop one more line on every access and reconstruction raise ValueError - not generated",
+    "a scan's photon stream that ends early still covers part of the last frame (otherwise Scan.num_frames, counted on the info "
+    "wave, exceeds the frames of the image and indexing raises - outside this property)",
+    "flip is applied to unprocessed kymographs with >=2 pixels only (a flipped view calls the view's factory functions "
+    "directly; one-pixel kymographs fall back on a pixel time that needs two rows)",
+    "NumPy buffer identity is not modelled: aliasing is checked by in-place write attempts only (confocal images/timestamps, "
+    "as the property states); channel .data arrays are writable by design and not attacked",
+    "scan start/stop/infowave of objects made by Scan.__getitem__ are treated as functions of the derivation path (they are set "
+    "from the frame ranges at creation)",
 ]
 
 T0 = bc.START
